@@ -9,7 +9,7 @@
 (* so that every event is judged); the driver requires that the number of  *)
 (* distinct states equals 1 + K + N, i.e. that every event was evaluated.  *)
 (***************************************************************************)
-EXTENDS TomlPrint, Json, IOUtils
+EXTENDS TomlPrint, DepthDef, Json, IOUtils
 
 Ev == ndJsonDeserialize(IOEnv.TRACE)
 N == Len(Ev)
@@ -342,6 +342,24 @@ CheckErr(i) ==
             IF r.linecol = LineCol(t, CpAt(offs, r.span[1])) THEN TRUE
             ELSE Report(i, "err-linecol", [fe |-> r.fe, span |-> r.span, impl |-> r.linecol, spec |-> LineCol(t, CpAt(offs, r.span[1]))]) /\ FALSE
 
+\* ---- C04: every call of every entry point returns (ok or err) within the budget ----
+\* The call/return protocol has no action for panic, abort or timeout: an event listing one is rejected.
+CheckApi(i) ==
+  LET e == Ev[i] IN
+  IF e.bad = <<>> /\ e.calls > 0 THEN TRUE ELSE Report(i, "api-bad", [bad |-> e.bad, calls |-> e.calls]) /\ FALSE
+
+\* ---- C05: nesting patterns instantiated at the measured recursion limit ----
+CheckDepth(i) ==
+  LET e == Ev[i]
+      p == e.pat
+  IN /\ IF MustAccept(p) => e.res = "ok" THEN TRUE ELSE Report(i, "depth-must-accept", [pat |-> p, res |-> e.res]) /\ FALSE
+     /\ IF e.res = "err" => e.limit_err THEN TRUE ELSE Report(i, "depth-not-a-limit-error", [pat |-> p]) /\ FALSE
+     /\ IF e.res \in {"ok", "err"} THEN TRUE ELSE Report(i, "depth-panic", [pat |-> p, res |-> e.res]) /\ FALSE
+     /\ e.res = "ok" =>
+          /\ IF e.depth >= StructDepth(p, e.L) THEN TRUE ELSE Report(i, "depth-measure", [pat |-> p, depth |-> e.depth]) /\ FALSE
+          /\ IF e.depth <= Bound(e.L) + 2 THEN TRUE ELSE Report(i, "depth-unbounded", [pat |-> p, depth |-> e.depth, bound |-> Bound(e.L)]) /\ FALSE
+     /\ IF e.ops_failed = <<>> THEN TRUE ELSE Report(i, "depth-op-failed", [pat |-> p, ops |-> e.ops_failed]) /\ FALSE
+
 U1Note(i) == Ev[i].ev = "parse" /\ ParseDocument(Ev[i].text).res = "u1" => PrintT(ToJson([u1 |-> i]))
 
 CheckEvent(i) ==
@@ -356,6 +374,8 @@ CheckEvent(i) ==
     [] Ev[i].ev = "sint" -> CheckSint(i)
     [] Ev[i].ev = "span" -> CheckSpan(i)
     [] Ev[i].ev = "err" -> CheckErr(i)
+    [] Ev[i].ev = "api" -> CheckApi(i)
+    [] Ev[i].ev = "depth" -> CheckDepth(i)
     [] OTHER -> Report(i, "unknown-event", Ev[i].ev) /\ FALSE
 
 Init == lvl = 0 /\ idx = 0
